@@ -2330,6 +2330,49 @@ package gomatrixserverlib
 //@   ensures lemma-ties-only-between-equal-ids: result == 0 ==> a.eventID == b.eventID
 //@   assigns nothing
 
+// the entry points: the algorithm is the one the room version's table entry names - v1 resolves only the conflicted
+// events (split first) and appends the unconflicted ones, v2 and v2.1 get all state sets and the algorithm itself; an
+// unknown version or algorithm is an error and resolves nothing
+//@ func ResolveConflictsNew
+//@   property C10, C11
+//@   nosafety
+//@   ensures unknown-version-is-an-error: (called(GetRoomVersion) && ret(GetRoomVersion, 1) != nil) ==> (result[1] != nil && !called(ResolveStateConflicts) && !called(ResolveStateConflictsV2New))
+//@   ensures v1: (result[1] == nil && ret(GetRoomVersion, 0).StateResAlgorithm() == 1) ==> (called(ResolveStateConflicts) && !called(ResolveStateConflictsV2New))
+//@   ensures v2-and-v2.1: (result[1] == nil && (ret(GetRoomVersion, 0).StateResAlgorithm() == 2 || ret(GetRoomVersion, 0).StateResAlgorithm() == 3)) ==> (called(ResolveStateConflictsV2New) && !called(ResolveStateConflicts) && result[0] == ret(ResolveStateConflictsV2New))
+//@   ensures other-algorithms-are-an-error: (called(GetRoomVersion) && ret(GetRoomVersion, 1) == nil && ret(GetRoomVersion, 0).StateResAlgorithm() != 1 && ret(GetRoomVersion, 0).StateResAlgorithm() != 2 && ret(GetRoomVersion, 0).StateResAlgorithm() != 3) ==> result[1] != nil
+//@   ensures v1-keeps-the-resolved-events-first: (result[1] == nil && ret(GetRoomVersion, 0).StateResAlgorithm() == 1) ==> (len(result[0]) == len(ret(ResolveStateConflicts)) + len(ret(splitConflictedUnconflicted, 1)) && (forall i int :: 0 <= i && i < len(ret(ResolveStateConflicts)) ==> result[0][i] == ret(ResolveStateConflicts)[i]) && (forall i int :: 0 <= i && i < len(ret(splitConflictedUnconflicted, 1)) ==> result[0][len(ret(ResolveStateConflicts)) + i] == ret(splitConflictedUnconflicted, 1)[i]))
+//@   calls GetRoomVersion@root the-rooms-version: verStr == root_version
+//@   calls splitConflictedUnconflicted@root all-state-sets: stateSets == root_stateSets && algoVersion == ret(GetRoomVersion, 0).StateResAlgorithm()
+//@   calls ResolveStateConflicts@root the-conflicted-events-and-the-auth-events: conflicted == ret(splitConflictedUnconflicted, 0) && authEvents == root_authEvents && userIDForSender == root_userIDForSender
+//@   calls ResolveStateConflictsV2New@root the-versions-algorithm-and-all-state-sets: stateResAlgo == ret(GetRoomVersion, 0).StateResAlgorithm() && stateSets == root_stateSets && authEvents == root_authEvents && userIDForSender == root_userIDForSender && isRejectedFn == root_isRejectedFn
+
+//@ func ResolveConflicts
+//@   property C10, C11
+//@   nosafety
+//@   ensures unknown-version-is-an-error: (called(GetRoomVersion) && ret(GetRoomVersion, 1) != nil) ==> (result[1] != nil && !called(ResolveStateConflicts) && !called(ResolveStateConflictsV2))
+//@   ensures v1: (result[1] == nil && ret(GetRoomVersion, 0).StateResAlgorithm() == 1) ==> (called(ResolveStateConflicts) && !called(ResolveStateConflictsV2))
+//@   ensures v2-and-v2.1: (result[1] == nil && (ret(GetRoomVersion, 0).StateResAlgorithm() == 2 || ret(GetRoomVersion, 0).StateResAlgorithm() == 3)) ==> (called(ResolveStateConflictsV2) && !called(ResolveStateConflicts) && result[0] == ret(ResolveStateConflictsV2))
+//@   calls GetRoomVersion@root the-rooms-version: verStr == root_version
+//@   calls ResolveStateConflicts@root the-auth-events: authEvents == root_authEvents && userIDForSender == root_userIDForSender
+//@   calls ResolveStateConflictsV2@root the-auth-events-and-the-oracle: authEvents == root_authEvents && userIDForSender == root_userIDForSender && isRejectedFn == root_isRejectedFn
+//@   loop 1: invariant 0 <= idx(1) && idx(1) <= len(events)
+
+// What a key response contributes to the lookup results: every current key under (server, key ID) as not expired and
+// valid until the response's valid_until_ts; every old key as expired at its own expired_ts and never valid; a key ID
+// listed under both ends up as the OLD (expired) key
+//@ func mapServerKeysToPublicKeyLookupResult
+//@   property C12, C18:safety
+//@   requires results != nil
+//@   ensures old-keys-are-expired-and-never-valid: forall k string :: KeyID(k) in serverKeys.OldVerifyKeys ==> (tuple(serverKeys.ServerName, KeyID(k)) in results && get(results, tuple(serverKeys.ServerName, KeyID(k))).ValidUntilTS == 0 && get(results, tuple(serverKeys.ServerName, KeyID(k))).ExpiredTS == get(serverKeys.OldVerifyKeys, KeyID(k)).ExpiredTS && get(results, tuple(serverKeys.ServerName, KeyID(k))).VerifyKey.Key == get(serverKeys.OldVerifyKeys, KeyID(k)).VerifyKey.Key)
+//@   ensures current-keys-are-valid-until-the-responses-time: forall k string :: (KeyID(k) in serverKeys.VerifyKeys && !(KeyID(k) in serverKeys.OldVerifyKeys)) ==> (tuple(serverKeys.ServerName, KeyID(k)) in results && get(results, tuple(serverKeys.ServerName, KeyID(k))).ValidUntilTS == serverKeys.ValidUntilTS && get(results, tuple(serverKeys.ServerName, KeyID(k))).ExpiredTS == 0 && get(results, tuple(serverKeys.ServerName, KeyID(k))).VerifyKey.Key == get(serverKeys.VerifyKeys, KeyID(k)).Key)
+//@   ensures nothing-for-other-servers-or-keys: forall n string, k string :: (n != string(serverKeys.ServerName) || (!(KeyID(k) in serverKeys.VerifyKeys) && !(KeyID(k) in serverKeys.OldVerifyKeys))) ==> ((tuple(spec.ServerName(n), KeyID(k)) in results) <==> old(tuple(spec.ServerName(n), KeyID(k)) in results))
+//@   loop 1: invariant forall k string :: seen(1)[KeyID(k)] ==> (tuple(serverKeys.ServerName, KeyID(k)) in results && get(results, tuple(serverKeys.ServerName, KeyID(k))).ValidUntilTS == serverKeys.ValidUntilTS && get(results, tuple(serverKeys.ServerName, KeyID(k))).ExpiredTS == 0 && get(results, tuple(serverKeys.ServerName, KeyID(k))).VerifyKey.Key == get(serverKeys.VerifyKeys, KeyID(k)).Key)
+//@   loop 1: invariant forall n string, k string :: (n != string(serverKeys.ServerName) || !(KeyID(k) in serverKeys.VerifyKeys)) ==> ((tuple(spec.ServerName(n), KeyID(k)) in results) <==> old(tuple(spec.ServerName(n), KeyID(k)) in results))
+//@   loop 2: invariant forall k string :: seen(2)[KeyID(k)] ==> (tuple(serverKeys.ServerName, KeyID(k)) in results && get(results, tuple(serverKeys.ServerName, KeyID(k))).ValidUntilTS == 0 && get(results, tuple(serverKeys.ServerName, KeyID(k))).ExpiredTS == get(serverKeys.OldVerifyKeys, KeyID(k)).ExpiredTS && get(results, tuple(serverKeys.ServerName, KeyID(k))).VerifyKey.Key == get(serverKeys.OldVerifyKeys, KeyID(k)).VerifyKey.Key)
+//@   loop 2: invariant forall k string :: (KeyID(k) in serverKeys.VerifyKeys && !(KeyID(k) in serverKeys.OldVerifyKeys)) ==> (tuple(serverKeys.ServerName, KeyID(k)) in results && get(results, tuple(serverKeys.ServerName, KeyID(k))).ValidUntilTS == serverKeys.ValidUntilTS && get(results, tuple(serverKeys.ServerName, KeyID(k))).ExpiredTS == 0 && get(results, tuple(serverKeys.ServerName, KeyID(k))).VerifyKey.Key == get(serverKeys.VerifyKeys, KeyID(k)).Key)
+//@   loop 2: invariant forall n string, k string :: (n != string(serverKeys.ServerName) || (!(KeyID(k) in serverKeys.VerifyKeys) && !(KeyID(k) in serverKeys.OldVerifyKeys))) ==> ((tuple(spec.ServerName(n), KeyID(k)) in results) <==> old(tuple(spec.ServerName(n), KeyID(k)) in results))
+//@   assigns results[*]
+
 // state resolution v1
 // v1 ordering inside a block: ascending depth, ties by DESCENDING SHA-1 of the event ID
 //@ func (conflictedEventSorter).Less
